@@ -253,28 +253,31 @@ pub fn check_looping(code: &[u8]) -> Result<Option<Facts>, Verdict> {
     }))
 }
 
-/// Cumulative minimum gas after each executed instruction of a reference path, in the tool's own accounting: a
-/// taken JUMP lands BEHIND its JUMPDEST (the tool steps past the marker by design), so a JUMPDEST that is
-/// entered by an unconditional jump is not an executed instruction and costs nothing; one that is reached by
-/// falling through, or at which a forked thread starts, is.
-fn path_gas(code: &[u8], p: &crate::ref_evm::PathResult, gas_of: &dyn Fn(u32) -> usize) -> Vec<usize> {
+/// Cumulative minimum gas after each executed instruction of a reference path. Whether the JUMPDEST a taken jump
+/// lands on counts as an executed (and paid) instruction is the tool's own business (today: a JUMP steps behind the
+/// marker for free, a thread forked by JUMPI starts at the marker and pays for it), so both accountings are
+/// computed: `charge_landing = false` is a lower bound of what the tool may count, `true` an upper bound.
+fn path_gas(code: &[u8], p: &crate::ref_evm::PathResult, gas_of: &dyn Fn(u32) -> usize, charge_landing: bool) -> Vec<usize> {
     let kinds = crate::c10::ref_kinds(code);
     let mut out = Vec::new();
     let mut sum = 0usize;
-    // did the previous instruction transfer control by a taken jump?
     let mut jumped = false;
+    let mut cursor = 0usize;
     for i in &p.executed {
         let b = code[*i as usize];
         let landed = b == 0x5b && jumped;
-        if !landed {
+        if !landed || charge_landing {
             sum += gas_of(*i);
         }
         out.push(sum);
         jumped = false;
-        // an unconditional jump moves the running thread behind the marker; a taken JUMPI starts a forked thread AT
-        // the marker, which then executes (and pays for) the JUMPDEST like any instruction
-        if kinds[*i as usize] && b == 0x56 {
-            jumped = true;
+        if kinds[*i as usize] {
+            if b == 0x56 {
+                jumped = true;
+            } else if b == 0x57 && cursor < p.branches.len() {
+                jumped = p.branches[cursor];
+                cursor += 1;
+            }
         }
     }
     out
@@ -293,8 +296,10 @@ pub fn check_gas(code: &[u8], limit: usize) -> Result<Option<bool>, Verdict> {
     };
     let Ok(thread) = stream.new_thread(0) else { return Ok(None) };
     let gas_of = |i: u32| thread.instruction(i).map(|o| o.min_gas_cost()).unwrap_or(0);
-    let exceeded = x.paths.iter().any(|p| path_gas(code, p, &gas_of).into_iter().last().unwrap_or(0) > limit);
-    let within = x.paths.iter().all(|p| path_gas(code, p, &gas_of).into_iter().last().unwrap_or(0) <= limit);
+    // exceeded under the lower accounting = certainly exceeded; within under the upper accounting = certainly within;
+    // in between (a landing JUMPDEST decides) either verdict is accepted
+    let exceeded = x.paths.iter().any(|p| path_gas(code, p, &gas_of, false).into_iter().last().unwrap_or(0) > limit);
+    let within = x.paths.iter().all(|p| path_gas(code, p, &gas_of, true).into_iter().last().unwrap_or(0) <= limit);
     for permissive in [false, true] {
         let o = match run_vm(code, cfg(permissive, Some(limit)), lazy()) {
             VmRun::Ran(o) => o,
@@ -343,10 +348,12 @@ pub fn gas_boundaries(code: &[u8]) -> Vec<usize> {
     let Ok(thread) = stream.new_thread(0) else { return out.into_iter().collect() };
     let gas_of = |i: u32| thread.instruction(i).map(|o| o.min_gas_cost()).unwrap_or(0);
     for p in &x.paths {
-        for sum in path_gas(code, p, &gas_of) {
-            out.insert(sum.saturating_sub(1));
-            out.insert(sum);
-            out.insert(sum + 1);
+        for charge in [false, true] {
+            for sum in path_gas(code, p, &gas_of, charge) {
+                out.insert(sum.saturating_sub(1));
+                out.insert(sum);
+                out.insert(sum + 1);
+            }
         }
     }
     out.into_iter().collect()
@@ -411,7 +418,7 @@ impl Check for C17 {
             }
             let code = assemble(&expand(&seq));
             run_one(ctx, "programs", &code, &format!("{seq:?}"));
-            if ix.len() <= if tier.thorough() { 4 } else { 3 } {
+            if ix.len() <= if tier.thorough() { 5 } else { 4 } {
                 for limit in gas_boundaries(&code) {
                     ctx.case(|| json!({"bytes": hex(&code), "gas_limit": limit}));
                     ctx.count("gas_programs", 1);
@@ -438,7 +445,7 @@ impl Check for C17 {
                 "all token sequences of length <= {} over {} tokens (stack-underflowing POP/ADD/DUP16/SWAP16, JUMP and JUMPI to valid, \
                  in-push-data, non-JUMPDEST, out-of-range, >=2^32 and symbolic targets, halting instructions), 2 048 loops whose JUMPI target \
                  advances on every iteration (bounded unrolling in the reference), a 1023/1024/1025 x PUSH0 \
-                 prefix family for stack overflow, and a gas family on sequences <= 3 (4 in the thorough tier) run at gas limit {} and at EVERY gas limit at which a verdict can change (each cumulative minimum-gas value after some instruction of some reference path, and its two neighbours). For every loop-free program the \
+                 prefix family for stack overflow, and a gas family on sequences <= 4 (5 in the thorough tier) run at gas limit {} and at EVERY gas limit at which a verdict can change (each cumulative minimum-gas value after some instruction of some reference path, and its two neighbours). For every loop-free program the \
                  reference EVM predicts the error events (class, offset) of all forced-branch paths; strict mode must fail and list \
                  each of them inside the code, permissive mode must fail iff a non-jump event exists, and strict success implies an \
                  equal permissive layout; checked on VM::execute and on analyze(). states = distinct programs with a predicted \
